@@ -5,7 +5,7 @@ from . import common
 
 NAME = "U-appcode"
 TOOL = "verus"
-PROPS = ["C14", "C13", "C04", "C18", "C16"]
+PROPS = ["C14", "C13", "C04", "C18", "C16", "C03"]
 RLIMIT = 100
 TRUSTED = ["verus 0.2026.09.13 + z3", "A-vstd (Vec push, for-loop over &Vec)", "A-fmt (R4)", "A-clone: #[derive(Clone)] on AsmLine is structural"]
 
@@ -86,7 +86,7 @@ def build(repo):
         ensures
             final(self).code@.len() == old(self).code@.len() + code.code@.len(), //@ C14:append-length
             final(self).code@.subrange(0, old(self).code@.len() as int) =~= old(self).code@, //@ C14:append-frame
-            forall|k: int| 0 <= k < code.code@.len() ==> renamed(code.code@[k], #[trigger] final(self).code@[old(self).code@.len() + k], inline_counter), //@ C14,C13,C04,C18,C16:append-renamed-clone
+            forall|k: int| 0 <= k < code.code@.len() ==> renamed(code.code@[k], #[trigger] final(self).code@[old(self).code@.len() + k], inline_counter), //@ C14,C13,C04,C18,C16,C03:append-renamed-clone
 """, expect_sig="fn append_code(&mut self, code: &AssemblyCode, inline_counter: u32)")
     ac.loop_spec(1, r"^for i in &code\.code$", """
             invariant
@@ -103,7 +103,7 @@ def build(repo):
                 // concatenation is associative (extensional equality hint)
                 if *i is Label { assert(((*i)->Label_0@ + "inline"@) + dec(inline_counter as int) =~= (*i)->Label_0@ + suffix(inline_counter)); }
                 if *i is Instruction { assert(((*i)->Instruction_0.dasm_operand@ + "inline"@) + dec(inline_counter as int) =~= (*i)->Instruction_0.dasm_operand@ + suffix(inline_counter)); }
-                assert(renamed(*i, self.code@[before.len() as int], inline_counter)); //@ C14,C13,C04,C18,C16:append-line-renamed
+                assert(renamed(*i, self.code@[before.len() as int], inline_counter)); //@ C14,C13,C04,C18,C16,C03:append-line-renamed
                 assert forall|k: int| 0 <= k < it.index@ implies renamed(code.code@[k], #[trigger] self.code@[old(self).code@.len() + k], inline_counter) by {
                     assert(self.code@[old(self).code@.len() + k] == before[old(self).code@.len() + k]);
                 }
